@@ -75,12 +75,18 @@ MonSelect(mon, sel, prio, K) ==
       c == [m \in DOMAIN c0 |-> IF m \in A THEN c0[m] - lo ELSE 0] IN
   [mon EXCEPT !.wait = TLCEval(w), !.pert = TLCEval(p), !.cnt = TLCEval(c), !.hi = Max2(mon.hi, MaxPrio(prio)),
              !.mx = MxStep(mon, prio, 0), !.lo = LoStep(mon, prio, 0)]
-(* a perturbation: everybody's allowance grows, the stretch restarts; a re-added or newly polled      *)
-(* message starts a new wait                                                                          *)
+(* a perturbation (kind, who): the stretch restarts and the allowance of every OTHER message grows -    *)
+(* the event may legitimately have put who in front of them.  It does not extend who's own wait        *)
+(* budget: a priority change / (re-)insertion of a queued message never moves that message back        *)
+(* (setPollPriority only ever pulls it forward: order := min(order, g_lastPollOrder + p); front/back   *)
+(* insertion keeps its order), so who stays judged, with its wait, for any number of events applied    *)
+(* to itself; its bound uses the largest priority it has had (mx).  A re-added message is a new        *)
+(* message and starts a new wait.                                                                      *)
 MonPerturb(mon, kind, who, prio, K) ==
-  LET A == Active(prio) IN
-  [wait |-> TLCEval([m \in DOMAIN mon.wait |-> IF m \notin A \/ (kind = "readd" /\ m = who) \/ mon.pert[m] >= K THEN 0 ELSE mon.wait[m]]),
-   pert |-> TLCEval([m \in DOMAIN mon.pert |-> IF m \notin A \/ (kind = "readd" /\ m = who) THEN 0 ELSE Min2(mon.pert[m] + 1, K + 1)]),
+  LET A == Active(prio)
+      fresh(m) == m \notin A \/ (kind = "readd" /\ m = who) IN
+  [wait |-> TLCEval([m \in DOMAIN mon.wait |-> IF fresh(m) \/ (m # who /\ mon.pert[m] >= K) THEN 0 ELSE mon.wait[m]]),
+   pert |-> TLCEval([m \in DOMAIN mon.pert |-> IF fresh(m) THEN 0 ELSE IF m = who THEN mon.pert[m] ELSE Min2(mon.pert[m] + 1, K + 1)]),
    cnt |-> TLCEval([m \in DOMAIN mon.cnt |-> 0]),
    mx |-> MxStep(mon, prio, IF kind = "readd" THEN who ELSE 0), lo |-> LoStep(mon, prio, IF kind = "readd" THEN who ELSE 0),
    hi |-> Max2(mon.hi, MaxPrio(prio))]
